@@ -25,6 +25,7 @@ def main():
     ap.add_argument("--dest", default=".")
     ap.add_argument("--run", default="TestSeed")
     ap.add_argument("--keep", action="store_true")
+    ap.add_argument("--only", default="", help="substring a demo file name must contain")
     a = ap.parse_args()
     seed = os.path.abspath(a.seed)
     wt = "/tmp/confirm/" + a.id
@@ -33,7 +34,7 @@ def main():
     rc, out = sh(f"git -C /repo worktree add --detach {wt} HEAD -q", "/")
     if rc:
         print(out); return 2
-    demos = [f for f in glob.glob(seed + "/demo/*") if f.endswith(".go")]
+    demos = [f for f in glob.glob(seed + "/demo/*") if f.endswith(".go") and a.only in os.path.basename(f)]
     pkg = "./" + a.dest if a.dest != "." else "."
     result = {"id": a.id, "repo_head": subprocess.check_output("git -C /repo rev-parse --short HEAD", shell=True, text=True).strip()}
     ok = True
